@@ -66,7 +66,7 @@ def observeon(n, ending, unsub):
 
 def timedops(n):
     return ('TimedOps', 'timedops_%d' % n,
-            'SPECIFICATION Spec\nCONSTANTS D = 100\n Gaps = {40, 90, 110, 260}\n MaxEvents = %d\n CancelOnEnd = TRUE\n'
+            'SPECIFICATION Spec\nCONSTANTS D = 100\n Gaps = {40, 90, 110, 260}\n MaxEvents = %d\n CancelOnEnd = TRUE\n ArmAfterEnd = FALSE\n'
             'INVARIANTS TimeoutExact NoTimeoutBeforeFirstItem OneTerminalLast TimeoutHappens ExitWithinOnePeriod\nPROPERTY AllExit\nCHECK_DEADLOCK FALSE\n' % n)
 
 
